@@ -88,6 +88,29 @@ let run_ops ops =
 
 let cur_dt () = match !state with Some (_, _, dt) -> dt | None -> TInt8
 
+(* typed container routes: the route builds the request (NDArr.route_op), from the extent the model
+   resp. the specification currently has; the request then runs like any other call *)
+let parse_route name ext = match name with
+  | "sc" -> RScalar
+  | "c1" -> (match ext with [n] -> RCArr1 n | _ -> failwith "c1 needs one extent")
+  | "c2" -> (match ext with [m; n] -> RCArr2 (m, n) | _ -> failwith "c2 needs two extents")
+  | "vec" -> RVector
+  | "val" -> RValarray
+  | "ma" -> RMulti (let rec nat_of k = if k = 0 then O else S (nat_of (k - 1)) in nat_of (OLst.length ext))
+  | "nd" -> RNDArray
+  | _ -> failwith ("bad route " ^ name)
+
+let run_typed r q =
+  match !state with
+  | None -> "ERR nix::UninitializedEntity ## ERR"
+  | Some (m, s, _) ->
+    let mo = route_op r m.disk.a_shape q and so = route_op r (s_shape s) q in
+    (match mo, so with
+     | Ok o, Ok o' when o = o' -> run_ops [o]
+     | Err e, Err _ -> "ERR " ^ ostr e ^ " ## ERR"
+     | UB w, _ -> "UB " ^ ostr w ^ " ## ERR"
+     | _ -> failwith "model and specification build different requests")
+
 let handle toks = match toks with
   | "create" :: dt :: compr :: shape ->
     let t = parse_dtype dt in
@@ -119,6 +142,23 @@ let handle toks = match toks with
   | "rawas" :: dt :: rest ->
     (match sections rest with [off; cnt] -> run_ops [ORead (true, Some (parse_dtype dt), zs off, zs cnt)] | _ -> failwith "rawas")
   | ["readvec"] -> run_ops [OReadVec]
+  | "tsetall" :: route :: rest ->
+    (match sections rest with
+     | [ext; vals] -> run_typed (parse_route route (zs ext)) (TSetAll (zs ext, OLst.map (parse_val (cur_dt ())) vals))
+     | _ -> failwith "tsetall needs 2 sections")
+  | "tset" :: route :: rest ->
+    (match sections rest with
+     | [ext; off; vals] -> run_typed (parse_route route (zs ext)) (TSet (zs ext, zs off, OLst.map (parse_val (cur_dt ())) vals))
+     | _ -> failwith "tset needs 3 sections")
+  | "tgetall" :: route :: ext -> run_typed (parse_route route (zs ext)) TGetAll
+  | "tget" :: route :: rest ->
+    (match sections rest with
+     | [ext; off; cnt] -> run_typed (parse_route route (zs ext)) (TGet (zs off, zs cnt))
+     | _ -> failwith "tget needs 3 sections")
+  | "tgetat" :: route :: rest ->
+    (match sections rest with
+     | [ext; off] -> run_typed (parse_route route (zs ext)) (TGetAt (zs ext, zs off))
+     | _ -> failwith "tgetat needs 2 sections")
   | ["poly"; "none"] -> run_ops [OPoly None]
   | "poly" :: cs -> run_ops [OPoly (Some (OLst.map dec_dbl cs))]
   | ["origin"; "none"] -> run_ops [OOrigin None]
